@@ -1073,7 +1073,7 @@ def fam_probe11(tier, seed):
     n = 0
     for t in rejects.twins(tier, seed):
         neg = t["neg"]
-        if t["rule"] != "beyond-base-width" or neg["base"] in NATIVE or neg.get("base_text"):
+        if t["rule"] != "beyond-base-width" or neg["base"] in NATIVE or neg.get("base_text") or t["kind"] == "huge":
             continue
         top = 0
         for f in neg["fields"]:
